@@ -265,6 +265,27 @@ def run_case(case):
         R.count("corpus_population_types[%d]" % len(P.framework.pop_types))
         for k in ("framework", "databook", "calibration", "binary") + (("progbook",) if pset is not None else ()):
             round_trip(R, k, P, pset, instr, np.random.default_rng(1))
+        # content entered through the API after loading (uncertainties on tables that were read without an uncertainty column,
+        # a further year, another assumption) must reach the exported workbook like content that was read from a file
+        rng_e = np.random.default_rng(case["seed"] + [2])
+        tables = list(P.data.tdve.values())
+        n_edit = 0
+        for tdve in [tables[int(i)] for i in rng_e.permutation(len(tables))[:6]]:
+            for pop, ts in tdve.ts.items():
+                u_ = rng_e.random()
+                if u_ < 0.6:
+                    ts.sigma = float(rng_e.choice([0.05, 0.1, 0.25]))
+                    n_edit += 1
+                elif u_ < 0.75 and ts.has_time_data:
+                    ts.insert(float(max(ts.t)) + 1.0, float(ts.vals[-1]))
+                    n_edit += 1
+        for tdc in list(P.data.transfers) + list(P.data.interpops):
+            for key, ts in tdc.ts.items():
+                if rng_e.random() < 0.5:
+                    ts.sigma = float(rng_e.choice([0.05, 0.1]))
+                    n_edit += 1
+        R.count("databook_entries_edited_through_the_API_before_export", n_edit)
+        round_trip(R, "databook", P, pset, instr, np.random.default_rng(1))
         # editing operations on the shipped databook (populations of every type, transfers), then the round trip
         if case.get("ops"):
             data_ops(R, case, P, None, np.random.default_rng(case["seed"]))
